@@ -184,3 +184,29 @@ CLAIMS.update({
 })
 
 NOT_APPLICABLE = {}
+
+
+# Clauses added after the sub-agent rounds (seeded changes that the first rule sets missed); appended to the claim texts.
+ADDENDA = {
+ "C01": "Also: a fill (amounts and fees) reaches the account as one all-or-nothing update (C01.3).",
+ "C02": "Also: nothing can fail between crediting the borrowed amount and registering the loan, registration post-dominates the "
+        "commit, and every lending strategy lends exactly the amount requested (C02.4).",
+ "C03": "Also (C03.7, shared with C12.3): the multiplexer hands out every due event - a source is polled whenever its slot is empty.",
+ "C04": "Also (C04.5, shared with C05.5): the open-order index never loses an order that is still open, so every open order of the "
+        "bar's pair is matched on every bar.",
+ "C07": "Also: raise sets include NoPrice from Prices.convert (it was wrongly treated as an environment lookup; that hid defects D12 and "
+        "D13, now fixed); the loan a strategy creates carries exactly the requested amount (premise of lemma L2, C07.2).",
+ "C08": "Also (C08.5): no precision (an int) is used as a truth value in the modules that resolve and apply precisions, and every rounding "
+        "call of OrderManager takes its precision from get_pair_info(pair).",
+ "C09": "Also (C09.3, shared with C08.5): the precision fees are rounded to is the pair's.",
+ "C10": "Also (C10.7): no handler on the valuation path swallows NoPrice.",
+ "C13": "Also (C13.3): the scheduler pass returns only across the 'next job is not due' edge (no other early exit).",
+ "C14": "Also (C14.1): an exception or cancellation that ends the initialize phase cannot be followed by main(); the context manager "
+        "both phases run in lets exceptions propagate.",
+ "C16": "Also (C16.1): encoder identity includes what is done to the mapping before it is encoded (signer and transport must apply the "
+        "same transformation), and follows helper functions across modules.",
+ "C19": "Also (C19.2): every flush consumes the skip-first-bar flag.",
+ "C20": "Also (C20.1): the limiter object's truth value is its identity (no __bool__/__len__), since callers test `if self._tb and ...`.",
+}
+for _pid, _txt in ADDENDA.items():
+    CLAIMS[_pid]["text"] = CLAIMS[_pid]["text"] + " " + _txt
